@@ -10,7 +10,7 @@ TB = ("Trusted: Coq 8.16.1 kernel + vm_compute (no native_compute), no axioms de
       "theorem is copied into the evidence); extraction with ExtrOcamlBasic (plus ExtrOcamlString in coq/Extract.v for the window names of the generated schedules; no Extract Constant for numbers) + OCaml 4.13.1; gcc 12 / clang 14; "
       "the hand-written models are tied to the C code by the correspondence run (c/harness.c over the freshly built "
       "library vs ocaml/driver.ml over the extracted models, same seeded op scripts) - agreement on the generated "
-      "inputs, not equivalence; translators tools/translate.py + tools/translate_acc.py (T1), tools/sched_extract.py (T2), "
+      "inputs, not equivalence; translators tools/translate.py + tools/translate_acc.py + tools/translate_obs.py (T1), tools/sched_extract.py (T2), "
       "tools/alloc_sites.py + tools/globals_extract.py (T3).")
 
 CLAIMS = {
@@ -76,8 +76,11 @@ CLAIMS = {
              note=TB + " Partial: the OpenMP runtime and the memory model are assumed to run every section/iteration exactly once.",
              technique="Coq commutation proof + thread-count sweep differential", design="5/C16"),
  "C17": dict(text="Proof (Coq): equal/cmp/is_zero/first_zero_row/find_pivot/read-after-write characterised against the abstract matrix for all inputs "
-             "(Properties_C17, 19 theorems). Tie: exact differential on pairs differing in one bit at every position class, all pivot start positions.",
-             note=TB, technique="Coq proof of observer specifications + exact differential", design="5/C17"),
+             "(Properties_C17, 19 theorems); the C text of mzd_is_zero, mzd_equal, mzd_cmp, mzd_first_zero_row, mzd_find_pivot (all four paths), "
+             "mzd_row_clear_offset and mzd_copy_row is TRANSLATED on every run (T1 struct mode, Gen_observers.v) and proven equal to these models for all "
+             "headers incl. windows (Properties_C17t). Tie: exact differential on near-equal pairs (one, two, word-aligned differences), periodic "
+             "contents, different shapes, all pivot start positions, owned and views.",
+             note=TB, technique="Coq proof of observer specifications, observers regenerated from the C text (T1) + exact differential", design="5/C17"),
  "C18": dict(text="Proof (Coq), partial: PNG row packing/unpacking round trip and buffer bounds for all widths; JCF parser exact, complete and safe with the "
              "repaired guards (each guard shown necessary); refutations for the pinned readers. Tie: real round trips through libpng, JCF/str against the model, "
              "malformed corpus under ASan.",
